@@ -8,26 +8,6 @@ from .interp import Outcome, Outs, CellState, PanicNow, get_mpath, set_mpath, Fr
 from .mirparse import Unsupported
 
 
-class TableV:
-    """abstract unique table: RefCell<FxHashMap<BDD, Rc<BDD>>> contents.
-    Representation invariant I: every entry maps a key to an Rc whose content is structurally equal to the key, and
-    the two leaves are present.  `get` may hit or miss (fresh Bool) except for leaves (always hit)."""
-    __slots__ = ('tag',)
-    cells = EMPTY
-
-    def __init__(self, tag='table'):
-        self.tag = tag
-
-
-class MapV:
-    """small concrete-shape map used for FxHashMap<String, usize> / definitions: association list of (key,value)"""
-    __slots__ = ('items', 'cells')
-
-    def __init__(self, items=()):
-        self.items = tuple(items)
-        self.cells = EMPTY
-
-
 def ret(v, guard=True):
     return Outcome('ret', guard, v, None)
 
@@ -448,33 +428,35 @@ def m_map_default(I, fr, a, ck):
 
 
 def map_get(I, fr, t, key):
+    """association list, newest entry wins; key equality may be symbolic"""
     res = NONE
-    for k, v in reversed(t.items):
+    pans = []
+    for g, k, v in t.items:
         e, p = _single_bool(I, fr, value_eq_call(I, fr, k, key))
-        if g_true(e):
+        pans.extend(p)
+        c = gand(g, e)
+        if g_true(c):
             res = some(mk_sref(v))
-        elif not g_false(e):
-            res = merge(e, some(mk_sref(v)), res)
+        elif not g_false(c):
+            res = merge(c, some(mk_sref(v)), res)
+    if pans:
+        out = Outs([ret(res)])
+        out.extend(pans)
+        return out
     return res
 
 
 def map_insert(I, fr, r, t, key, val):
-    # concrete-shape association list: a key that is definitely equal replaces, otherwise appended (symbolic equality
-    # between string keys only arises in the tokenizer model, which handles identifiers itself)
-    items = list(t.items)
-    old = NONE
-    for i, (k, v) in enumerate(items):
-        e, p = _single_bool(I, fr, value_eq_call(I, fr, k, key))
-        if g_true(e):
-            old = some(v)
-            items[i] = (k, val)
-            break
-        if not g_false(e):
-            raise EngineError('symbolic key equality in map insert')
-    else:
-        items.append((key, val))
-    write_mref(I, fr, r, MapV(items))
-    return old
+    """append (newest wins on lookup); returns the previous value for the key as Option"""
+    old = map_get(I, fr, t, key)
+    if isinstance(old, Outs):
+        raise EngineError('panic inside key comparison of a map insert')
+    # Option<&V> -> Option<V>
+    alts = {}
+    for idx, (g, fs) in old.alts.items():
+        alts[idx] = (g, tuple(f.val if isinstance(f, SRef) else f for f in fs))
+    write_mref(I, fr, r, MapV(t.items + ((True, key, val),)))
+    return Adt('Option', alts)
 
 
 # ------------------------------------------------------------------------------------------------ Option / Result
@@ -847,7 +829,8 @@ def call_mut_closure(I, fr, f, args):
             raise EngineError('no body for ' + f.cid)
         # FnMut closures take &mut self; captured state is never mutated by the closures in this crate, so a shared
         # snapshot is passed
-        return I.call_item(it, [mk_sref(f)] + list(args), fr.mem)
+        selfarg = mk_sref(f) if it.arg_types[0].lstrip().startswith('&') else f
+        return I.call_item(it, [selfarg] + list(args), fr.mem)
     return I.call_value(fr, f, args)
 
 
